@@ -245,20 +245,25 @@ PROPS["C19"] = dict(
          "tasks of the glommio workers (http accept task, http connection task, http swarm request handler, ws connection task, ws swarm "
          "request handler) at the 1st or 3rd pass with 1x1 and 2x3 workers; the child drives datagrams / TCP / WebSocket traffic until the "
          "hook reports that the fault fired, then waits up to 14 s for run() to return; checked: run() returned, with an Err, within scan "
-         "period + 2.5 s of the fault; non-trivial = the fault fired",
+         "period + 4 s of the fault (5 + 4 < 10); non-trivial = the fault fired",
     modelled="the scan loop at the end of run() in crates/{udp,http,ws}/src/lib.rs (Watchdog.v) with period and join() arms regenerated from "
              "the sources; that a panic inside a detached glommio task unwinds through LocalExecutor::run into the worker thread is NOT "
              "modelled - it is observed by the suite",
     assumptions=["std::thread::JoinHandle::is_finished becomes true once the closure returned or unwound", "scan duration and thread scheduling "
-                 "are granted 2.5 s of slack", "a returning (not panicking) async sub-task of a glommio worker is not a worker failure",
+                 "are granted 4 s of slack", "a returning (not panicking) async sub-task of a glommio worker is not a worker failure",
                  "the prometheus endpoint thread is not exercised (feature off in the harness build)"],
 )
 
 PROPS["C04"] = dict(
     suites=[dict(name="udp-conc", harness="udp-conc", imports=["ConcCheck"], case_type="conc_case",
                  check="conc_code", monitor="lin_code", count_quick=300, count_thorough=20000, nontrivial_bits=3, shrink=False,
-                 crash_is_violation=True)],
-    rule="udp-conc: small concurrent programs on the REAL shared TorrentMaps, one OS thread per operation, serialised by a scheduler at the "
+                 crash_is_violation=True),
+            dict(name="udp-conc-stress", harness="udp-conc", imports=["ConcCheck"], case_type="conc_case",
+                 check="lin_code", monitor="lin_code", count_quick=1500, count_thorough=60000, nontrivial_bits=3, shrink=False,
+                 extra={"stress": "1"}, crash_is_violation=True)],
+    rule="udp-conc-stress: free-running threads (no scheduler): per round three threads released together announce three different peers "
+         "for a torrent not yet in the map, then a quiescent scrape; judged by the linearizability monitor (some order of the three announces "
+         "must explain all replies and the final counts); udp-conc: small concurrent programs on the REAL shared TorrentMaps, one OS thread per operation, serialised by a scheduler at the "
          "hook probes H3 (announce: after the Arc clone / before the peer map lock; scrape: after each hash; clean: after a shard's "
          "snapshot, after each cleaned torrent, between the phases): an optional sequential prefix (an announce whose peer has expired by "
          "the time of a cleaning pass at t=50, leaving torrent 0 EMPTY but present; a seeder on torrent 1), 2..4 concurrent operations "
@@ -273,7 +278,7 @@ PROPS["C04"] = dict(
                  "lock-level deadlock freedom rests on the acquisition order shard -> peer map (argued in DESIGN.md, not machine-checked): in the "
                  "model no instruction ever waits", "the access list is off during the concurrent runs (reload interplay is C11)",
                  "free-running multi-thread stress is not part of the check"],
-    on_proof_failure=[monitor_search("udp-conc", count=300)],
+    on_proof_failure=[monitor_search("udp-conc", count=300), monitor_search("udp-conc-stress", count=3000)],
 )
 
 PROPS["C05"] = dict(
